@@ -458,12 +458,66 @@ class LoadIncludes(Contract):
         return Seg("load_includes", text, fn, _nested_includes)
 
 
+def _install_open_model():
+    """builtins.open on a symbolic name: the ghost file object of contracts/validator_c (its content stands for 'the text
+    in the file of that name at the time of the call'), with the arguments of the call recorded on it"""
+    import builtins
+    from pyvc import models
+    from contracts import validator_c  # noqa: F401  (installs the model this one wraps)
+    prev = models.EXTRA_MODELS[builtins.open]
+    if getattr(prev, "_records_args", False):
+        return
+
+    def m_open(I, fn, *a, **k):
+        r = prev(I, fn, *a, **k)
+        if isinstance(r, models.FileModel):
+            r.open_args = (a, k)
+            lst = I.E.__dict__.setdefault("opened", [])
+            if not any(x is r for x in lst):
+                lst.append(r)
+        return r
+    m_open._records_args = True
+    models.EXTRA_MODELS[builtins.open] = m_open
+
+
+_install_open_model()
+
+
 @register
 class OpenFile(Contract):
-    """ghost file system: the text of the file, or IOError when it does not exist"""
+    """Callers see the ghost file system: the text of the file, or IOError when it does not exist.  The body is interpreted
+    for an arbitrary name: a file is opened, only on exactly fn, only for reading as UTF-8 text, and what read() delivers is
+    returned unchanged; nothing reachable from the arguments is written (no memo on the parser).  A version that consults
+    os.stat / a module-level cache is out of reach of this contract (native call on a symbolic name) - the rewrite-history
+    part of the front-end seam is the stand-in for that (DESIGN 10.8)."""
     target = "mappyfile.parser.Parser.open_file"
-    cases = []
-    props = ("C15",)
+    cases = ["any-name"]
+    props = ("C15", "C20")
+    modifies = ()
+
+    def build(self, E, case):
+        E.__dict__["opened"] = []
+        return (mk_parser(E), E.str("fn")), {}
+
+    def ensures(self, E, case, args, kwargs, out):
+        p, fn = args
+        if not E.symbolic:
+            yield "native-replay-not-modelled", True
+            return
+        opened = E.__dict__.get("opened", [])
+        # (the harness's `with` hook for codecs.open evaluates the context expression once before the engine does, so one
+        # `with open(...)` is recorded twice: the clauses are stated over every recorded open)
+        yield "opens-a-file", len(opened) >= 1
+        ok_fn, ok_mode = True, True
+        for f in opened:
+            a, k = f.open_args
+            mode = a[0] if a else k.get("mode", "r")
+            ok_fn = ok_fn and f.content is fn
+            ok_mode = ok_mode and mode in ("r", "rt") and k.get("encoding", a[2] if len(a) > 2 else None) in ("utf-8", "utf8", "UTF-8") \
+                and k.get("errors") in (None, "strict") and k.get("newline") is None
+        yield "every-open-is-on-fn", ok_fn
+        yield "read-as-utf-8-text", ok_mode
+        yield "returns-what-read()-delivers", out.kind == "return" and any(out.value is f.content for f in opened)
 
     def at_call(self, E, p, fn):
         if not E.interp.ctx.branch(S.Sym(S.BOOL, fs_exists(S.term(fn)))):
